@@ -48,7 +48,15 @@ fn case(rng: &mut Rng, c: &mut Collector) {
         1 => format!("({}{trailing});", fs.join(", ")),
         _ => ";".to_string(),
     };
-    let gen = *rng.pick(&["", "<'a, T, const N: usize>", "<'a, T: Clone, U = u8, const N: usize>"]);
+    // lifetime parameters also come with inline bounds and attributes: a converted parameter list
+    // hands each one on whole, not just its name
+    let gen = *rng.pick(&[
+        "",
+        "<'a, T, const N: usize>",
+        "<'a, T: Clone, U = u8, const N: usize>",
+        "<'a, 'b: 'a, T, const N: usize>",
+        "<#[cfg(all())] 'a, 'b: 'a + 'a, T: 'b + Clone, const N: usize>",
+    ]);
     let wh = if !gen.is_empty() && rng.coin() { " where T: Default" } else { "" };
     let src = if style == 0 { format!("struct S{gen}{wh} {body}") } else { format!("struct S{gen}{} {wh}{}", body.trim_end_matches(';'), ";") };
     let Ok(di) = syn::parse_str::<syn::DeriveInput>(&src) else {
